@@ -1,4 +1,6 @@
 import LokyModel.Lemmas.ExecLiveWatchOk
+import LokyModel.Lemmas.ExecLiveCrashAll
+import LokyModel.Props.C01Live
 /-!
 # C02 — an abrupt death is seen: the manager never waits on a stale list of sentinels
 
@@ -35,5 +37,177 @@ theorem C02_death_is_seen (cfg : Cfg) (s : St) (h : Reachable cfg s) (sn : List 
     (hm : s.mpc = .wait sn) (hp : p ∈ s.procDict) (hd : isDead s p = true)
     (hno : ∀ k, k < s.cfg.scripts.length → uSpawning (s.upc k) = false) : (stepM s .ok).isSome = true :=
   watch_death_seen_reachable h sn p hm hp hd hno
+
+/-!
+# C02, liveness half — deadlock freedom of static pools whose workers may die
+
+`Props/C01Live.lean` proves that a static pool never gets stuck in runs without crash steps.  Here the adversary may in
+addition kill any worker, any number of times, at any point at which the victim holds no kernel lock
+(`ReachableLF`, `lockFree`): anywhere in its start-up and initializer, while it waits for the call queue's read lock,
+inside a task body, between a task and its result, while it waits for the result queue's write lock, inside the exit
+handshake...  The excluded points — between taking and releasing the call queue's read lock, the result queue's write
+lock, or the management lock of the exit path — are exactly where the listed findings D5 / D7 live (a death while a
+kernel lock is held leaves the lock taken for ever; `Props/C01.lean` exhibits the stuck states).  The manager's own
+`kill` steps are ordinary steps and may hit a worker anywhere.
+
+As in C01 what is proved is deadlock freedom (no reachable quiescent state is a bad one), not termination.
+-/
+
+/-- **C02, static pools with worker deaths: a quiescent state is a good one.**  In every state that a static pool reaches
+    by ordinary steps and by deaths of workers that hold no kernel lock, if no actor has an enabled step (other than a
+    further death), then every future is resolved and every user thread has finished its script: after an abrupt death
+    nothing hangs — no `result()`, no `shutdown(wait=True)`, no interpreter-exit hook. -/
+theorem C02_static_pool_crash_no_deadlock (cfg : Cfg) (hc : cfg.staticPool = true) (s : St) (h : ReachableLF cfg s)
+    (hq : enabledNC s = []) : good s = true :=
+  stuck_good_LF cfg hc s h hq
+
+/-- … in the vocabulary of the witness theorems of `Props/C01.lean`: **no state of a lock-free crash run of a static
+    pool is `stuckBad`** (nothing can move and a future is unresolved or a user thread has not finished). -/
+theorem C02_static_pool_crash_never_stuck_bad (cfg : Cfg) (hc : cfg.staticPool = true) (s : St)
+    (h : ReachableLF cfg s) : stuckBad s = false := by
+  unfold stuckBad
+  cases he : anyEnabled s with
+  | true => simp
+  | false =>
+    have hg := C02_static_pool_crash_no_deadlock cfg hc s h ((anyEnabled_false_iff s).1 he)
+    unfold good at hg
+    simp only [Bool.and_eq_true] at hg
+    simp only [Bool.not_false, Bool.true_and, Bool.or_eq_false_iff]
+    constructor
+    · rw [List.any_eq_false]
+      intro f hf
+      have := List.all_eq_true.1 hg.1 f hf
+      simp [this]
+    · rw [List.any_eq_false]
+      intro k hk
+      have := List.all_eq_true.1 hg.2 k hk
+      simpa using this
+
+/-- every crash-aware ingredient, for every state of a lock-free crash run of a static pool -/
+theorem C02_static_pool_crash_ingredients (cfg : Cfg) (hc : cfg.staticPool = true) (s : St) (h : ReachableLF cfg s) :
+    staticC s = true ∧ smallOk s = true ∧ holderC s = true ∧ joinC s = true ∧ killedC s = true ∧ watchOk s = true :=
+  ⟨staticC_reachableLF hc h, smallOk_reachableLF hc h, holderC_reachableLF hc h, joinC_reachableLF hc h,
+   killedC_reachableLF hc h, watchOk_reachable h.reachable⟩
+
+/-- **after a death, once nothing can move, everything is resolved**, spelled out: every future is done (with the value
+    or exception it had before the death, or with the `TerminatedWorkerError` of the broken pool) and every user thread
+    is at the end of its script. -/
+theorem C02_after_death_quiescent_all_resolved (cfg : Cfg) (hc : cfg.staticPool = true) (s : St)
+    (h : ReachableLF cfg s) (_hd : anyDead s = true) (hq : enabledNC s = []) :
+    (∀ f ∈ s.futs, f.done = true) ∧ ∀ k, k < s.cfg.scripts.length → s.upc k = .done := by
+  have hg := C02_static_pool_crash_no_deadlock cfg hc s h hq
+  unfold good at hg
+  simp only [Bool.and_eq_true, List.all_eq_true, List.mem_range, beq_iff_eq] at hg
+  exact hg
+
+/-- **a static pool is flagged broken only after a death, and then it is shut down and every worker gets killed**: if
+    `broken` is set then some worker is dead, the shutdown flag is raised, the manager is past the flagging (releasing
+    the shutdown lock, in the kill loop, or in its final phase), and once it is in its final phase every worker ever
+    spawned is dead. -/
+theorem C02_static_pool_broken_facts (cfg : Cfg) (hc : cfg.staticPool = true) (s : St) (h : ReachableLF cfg s)
+    (hb : s.broken.isSome = true) :
+    anyDead s = true ∧ s.shutdownFlag = true ∧ mBrkLate s.mpc = true ∧
+    (mFinal s.mpc = true → ∀ p ∈ s.allPids, s.w p = .dead) := by
+  have hk := killedC_reachableLF hc h
+  have hci := StaticCP.ci_of_bool s (staticCInv_reachableLF hc h).1
+  refine ⟨hci.bd ?_, (killedC_broken s hk hb).1, (killedC_broken s hk hb).2, fun hf => killedC_hkd s hk hf hb⟩
+  intro e; rw [e] at hb; cases hb
+
+/-! ### non-vacuity: a static pool, a worker killed inside a task, a quiescent state -/
+
+/-- an ordinary step, or the crash of a worker that holds no lock (`StepLF`, executable) -/
+def stepLFb (s : St) (a : Actor) (v : Variant) : Bool :=
+  v != .crash || (match a with | .W p => lockFree (s.w p) | _ => false)
+
+/-- run a schedule as `run` does, refusing crash steps of workers that hold a lock -/
+def runLF (s : St) : List (Actor × Variant) → Option St
+  | [] => some s
+  | (a, v) :: rest => if stepLFb s a v then (step s a v).bind (runLF · rest) else none
+
+theorem run_of_runLF : ∀ (sched : List (Actor × Variant)) (s0 s : St), runLF s0 sched = some s →
+    run s0 sched = some s := by
+  intro sched
+  induction sched with
+  | nil => intro s0 s hr; simpa [runLF, run] using hr
+  | cons x xs ih =>
+    intro s0 s hr
+    obtain ⟨a, v⟩ := x
+    simp only [runLF] at hr
+    cases hcond : stepLFb s0 a v with
+    | false => simp [hcond] at hr
+    | true =>
+      simp only [hcond, if_true] at hr
+      simp only [run]
+      cases hs : step s0 a v with
+      | none => simp [hs] at hr
+      | some s1 =>
+        simp only [hs, Option.bind_some] at hr ⊢
+        exact ih s1 s hr
+
+theorem reachableLF_of_run {cfg : Cfg} : ∀ (sched : List (Actor × Variant)) (s0 s : St), ReachableLF cfg s0 →
+    runLF s0 sched = some s → ReachableLF cfg s := by
+  intro sched
+  induction sched with
+  | nil => intro s0 s h0 hr; simp [runLF] at hr; subst hr; exact h0
+  | cons x xs ih =>
+    intro s0 s h0 hr
+    obtain ⟨a, v⟩ := x
+    simp only [runLF] at hr
+    cases hcond : stepLFb s0 a v with
+    | false => simp [hcond] at hr
+    | true =>
+      simp only [hcond, if_true] at hr
+      cases hs : step s0 a v with
+      | none => simp [hs] at hr
+      | some s1 =>
+        simp only [hs, Option.bind_some] at hr
+        refine ih s1 s ?_ hr
+        by_cases hv : v = .crash
+        · subst hv
+          cases a with
+          | W p => exact .crash h0 (by simpa [stepLFb] using hcond) hs
+          | _ => simp [stepLFb] at hcond
+        · exact .step h0 hv hs
+
+/-- two workers, two plain tasks, `shutdown(wait=True)` -/
+def cfgCrash : Cfg :=
+  { maxWorkers := 2, timeout := false, tasks := [{}, {}],
+    scripts := [[.create, .submit 0, .submit 1, .shutdown true false]] }
+/-- worker 100 is killed while it runs the first task (step 26); the second task is still queued -/
+def schedCrash : List (Actor × Variant) :=
+  [(.U 0, .ok), (.U 0, .ok), (.U 0, .ok), (.U 0, .ok), (.U 0, .ok), (.U 0, .ok), (.U 0, .ok), (.U 0, .ok),
+   (.W 100, .ok), (.W 100, .ok), (.U 0, .ok), (.U 0, .ok), (.M, .ok), (.U 0, .ok), (.M, .ok), (.M, .ok), (.F, .ok),
+   (.F, .ok), (.W 101, .ok), (.F, .ok), (.F, .ok), (.W 100, .ok), (.W 100, .ok), (.W 101, .ok), (.W 100, .ok),
+   (.W 100, .crash), (.M, .ok), (.M, .fail), (.U 0, .ok), (.U 0, .ok), (.U 0, .ok), (.U 0, .ok), (.U 0, .ok),
+   (.U 0, .ok), (.U 0, .ok), (.U 0, .ok), (.U 0, .ok), (.U 0, .ok), (.U 0, .ok), (.M, .ok), (.M, .ok), (.M, .ok),
+   (.M, .ok), (.M, .ok), (.M, .ok), (.U 0, .ok), (.M, .ok), (.U 0, .ok), (.M, .ok), (.U 0, .ok), (.F, .ok), (.M, .ok),
+   (.U 0, .ok), (.M, .ok), (.M, .ok), (.M, .ok), (.U 0, .ok), (.U 0, .ok)]
+
+example : cfgCrash.staticPool = true := by decide
+example : schedCrash.any (fun av => av == (.W 100, .crash)) = true := by decide
+/-- the state just before the death: worker 100 is inside the body of task 0 -/
+example : (runLF (init cfgCrash) (schedCrash.take 25)).map (fun s => (s.w 100, lockFree (s.w 100))) =
+    some (.task 0 0, true) := by decide +kernel
+/-- the run (with its crash step, checked to be at a lock-free point by `runLF`) ends in a quiescent state, which — as
+    the theorem says — is a good one: the pool is flagged broken, both futures (the running one and the queued one) carry
+    `TerminatedWorkerError`, both workers are dead, the manager thread has ended, `shutdown(wait=True)` has returned -/
+theorem schedCrash_end : (runLF (init cfgCrash) schedCrash).map (fun s =>
+      ((enabledNC s).isEmpty, good s, anyDead s, s.broken, s.futs)) =
+    some (true, true, true, some .terminated, [.excTerminated, .excTerminated]) := by
+  decide +kernel
+example : (runLF (init cfgCrash) schedCrash).map (fun s => (s.mpc, s.allPids.map s.w)) =
+    some (.done, [.dead, .dead]) := by decide +kernel
+
+/-- **the crash theorem is not vacuous**: a state of a lock-free crash run of a static pool, reached through a death,
+    quiescent, good, flagged broken -/
+theorem C02_static_pool_crash_nonvacuous : ∃ s, ReachableLF cfgCrash s ∧ enabledNC s = [] ∧ good s = true ∧
+    anyDead s = true ∧ s.broken = some .terminated ∧ s.futs = [.excTerminated, .excTerminated] := by
+  have h := schedCrash_end
+  cases hr : runLF (init cfgCrash) schedCrash with
+  | none => rw [hr] at h; cases h
+  | some s =>
+    rw [hr] at h
+    simp only [Option.map_some, Option.some.injEq, Prod.mk.injEq, List.isEmpty_iff] at h
+    exact ⟨s, reachableLF_of_run schedCrash _ s .init hr, h.1, h.2.1, h.2.2.1, h.2.2.2.1, h.2.2.2.2⟩
 
 end LokyModel.Exec
